@@ -577,6 +577,18 @@ def suite_e2e(ctx):
                 continue
             k += 1
             runs.append((fn, variant, fmts[k % 3]))
+    # the gradient for the other anisotropy cases (number of properties)
+    rmod = 10.0**rng.uniform(-0.3, 0.3, grid.shape_cells)
+    models = {'iso': emg3d.Model(grid, property_x=rmod),
+              'HTI': emg3d.Model(grid, property_x=rmod, property_y=2*rmod),
+              'tri': emg3d.Model(grid, property_x=rmod, property_y=2*rmod,
+                                 property_z=0.5*rmod)}
+    for ci, case in enumerate(models):
+        runs.append(('gradient', 'dry-'+case, fmts[(k + ci) % 3]))
+    runs.append(('gradient', 'plain-HTI', fmts[k % 3]))
+    if ctx.thorough:
+        runs.append(('gradient', 'plain-tri', fmts[(k+1) % 3]))
+        runs.append(('misfit', 'plain-iso', fmts[(k+2) % 3]))
     lines, meta = [], []
     cwd0 = os.getcwd()
     try:
@@ -590,7 +602,8 @@ def suite_e2e(ctx):
                 sv = survey.copy()
                 sv.data['observed'][:, 1, :] = np.nan
             emg3d.save(os.path.join(d, f'survey.{fmt}'), survey=sv, verb=0)
-            emg3d.save(os.path.join(d, f'model.{fmt}'), model=model, verb=0)
+            mdl = models.get(variant.split('-')[-1], model)
+            emg3d.save(os.path.join(d, f'model.{fmt}'), model=mdl, verb=0)
             cfg = (f"[files]\npath = {d}\nsurvey = survey.{fmt}\n"
                    f"model = model.{fmt}\noutput = out.{fmt}\n") + base
             args = ['--'+fn]
@@ -619,7 +632,7 @@ def suite_e2e(ctx):
             if variant == 'data-empty':
                 cfg += "[data]\nremove_empty = True\n"
                 ent += [('data', 'remove_empty', 'True')]
-            if variant == 'dry':
+            if variant.startswith('dry'):
                 args.append('-d')
                 flags.append('dry_run')
             pre = None
